@@ -1,7 +1,7 @@
 \* Design-level check of the symbolic coin machine: exhaustive within the bounds.
 SPECIFICATION Spec
 CONSTANTS MaxOps = 3  Tries = 3
-  MFields <- MFieldsAll  SeedSet <- SeedsTwo  DigestAtoms = {1, 2}  NonceSet <- NoncesThree
-  Counts = {0, 1, 3, 4}  Sizes = {2, 8}  Degs = {1, 2}
+  MFields <- MFieldsAll  SeedSet <- SeedsOne  DigestAtoms = {1, 2}  NonceSet <- NoncesTwo
+  Counts = {0, 1, 4}  Sizes = {2, 8}  Degs = {1, 2}
 INVARIANT Deterministic Sensitive Fresh Promised CounterOK
 CHECK_DEADLOCK FALSE
